@@ -30,7 +30,7 @@ class SchedTimeout(Exception):
 
 
 class Scheduler:
-    def __init__(self, step_timeout: float = 10.0) -> None:
+    def __init__(self, step_timeout: float = 5.0) -> None:
         self.cv = _t.Condition()
         self.turn: str | None = None          # logical thread allowed to run
         self.parked: dict[str, str] = {}      # thread -> label it is parked at
@@ -146,7 +146,7 @@ class Scheduler:
                 self.cv.notify_all()
             # wake everybody: yield_point loops on turn != me, so hand out turns one by one
         for n in list(self.threads):
-            for _ in range(1000):
+            for _ in range(100):
                 if n in self.done:
                     break
                 with self.cv:
@@ -221,7 +221,7 @@ class ShimLock:
     def _free_acquire(self, me: str) -> bool:
         import time as _time
 
-        for _ in range(20000):
+        for _ in range(4000):
             if self.can_acquire(me):
                 self.owner = me
                 self.depth += 1
